@@ -308,13 +308,44 @@ def c183(ctx):
             ctx.check(R, f, "free-after-unmap", p is None, "a node is freed only after it left the key map", "a node can be freed while still in the key map", pt=pt, path=p)
     f = ctx.fn(R, LRU + "insert")
     if f:
-        ev = ctx.calls(R, f, LRU + r"remove_lru$")
-        for pt in ev:
+        # eviction sites of insert: direct calls of remove_lru, and calls of a same-module helper that can reach it
+        direct = P.call_points(f, LRU + r"remove_lru$")
+        via = []
+        for b, t in f.calls():
+            pt = P.term_pt(f, b.idx)
+            ks = ctx.prog.targets(t)
+            if pt in direct or len(ks) != 1 or (callee_skey(t) or "").endswith(("::insert_helper", "::remove_lru")):
+                continue
+            g = ctx.prog.fns.get(ks[0])
+            if g is not None and g.crate == "sync42" and g.skey.startswith("sync42::lru::") and P.call_points(g, LRU + r"remove_lru$"):
+                via.append((pt, g))
+        ev = direct + [pt for pt, _g in via]
+        ctx.floor(R, "insert: eviction sites", len(ev), 1)
+        for pt in direct:
             ctx.check(R, f, "evict-loop", P.reach(f, P.after(f, pt), [pt]) is not None, "eviction runs in a loop", "insert evicts at most once", pt=pt)
             g = [x for x in K.compare_guards(f, pt) if x["op"] == "Gt" and x["holds"] and ".size" in K.src_names(f, x["a"]) and ".capacity" in K.src_names(f, x["b"])]
             ctx.check(R, f, "evict-cond", bool(g), "while size > capacity", "eviction is not conditioned on size > capacity", pt=pt)
+        for pt, g in via:
+            t = P.term_at(f, pt)
+            for q in P.call_points(g, LRU + r"remove_lru$"):
+                ctx.check(R, g, "evict-loop", P.reach(g, P.after(g, q), [q]) is not None, "eviction runs in a loop", "%s evicts at most once" % g.skey, pt=q)
+                lim = None
+                for x in K.compare_guards(g, q):
+                    if x["op"] == "Gt" and x["holds"] and ".size" in K.src_names(g, x["a"]):
+                        if ".capacity" in K.src_names(g, x["b"]):
+                            lim = "capacity"
+                        for y in P.origins(g, x["b"]):
+                            if y["k"] == "param":
+                                a = t["args"][y["i"] - 1]
+                                vs, _ = P.value_slice(f, a)
+                                if any(z["k"] == "field" and z["f"] == "capacity" for z in P.origins(f, a)) and not any(z["k"] == "bin" for z in vs):
+                                    lim = "capacity"
+                                else:
+                                    lim = lim or "other"
+                ctx.check(R, f, "evict-cond", lim == "capacity", "the helper evicts while size > capacity",
+                          "insert evicts down to something other than the capacity (%s): entries a sequential LRU map keeps are thrown out" % (lim or "no size test"), pt=pt)
         ih = ctx.calls(R, f, LRU + r"insert_helper$")
-        ctx.order_chain(R, f, [("insert_helper", ih), ("remove_lru", ev)])
+        ctx.order_chain(R, f, [("insert_helper", ih), ("eviction", ev)])
     # a use makes the entry the most recently used: every normal path of the two operations that touch an existing entry
     # (insert of a present key, lookup hit) and of the insertion of a new one puts the node at the head of the recency list
     for name in ("insert_helper", "lookup"):
